@@ -84,6 +84,10 @@ func (l LightClientModule) VerifyMembership(
 	path exported.Path,
 	value []byte,
 ) error {
+	if selfHeight := clienttypes.GetSelfHeight(ctx); height.GT(selfHeight) {
+		return errorsmod.Wrapf(ibcerrors.ErrInvalidHeight, "proof height %s is greater than the current height %s", height, selfHeight)
+	}
+
 	ibcStore := l.storeService.OpenKVStore(ctx)
 
 	// ensure the proof provided is the expected sentinel localhost client proof
@@ -128,6 +132,10 @@ func (l LightClientModule) VerifyNonMembership(
 	proof []byte,
 	path exported.Path,
 ) error {
+	if selfHeight := clienttypes.GetSelfHeight(ctx); height.GT(selfHeight) {
+		return errorsmod.Wrapf(ibcerrors.ErrInvalidHeight, "proof height %s is greater than the current height %s", height, selfHeight)
+	}
+
 	ibcStore := l.storeService.OpenKVStore(ctx)
 
 	// ensure the proof provided is the expected sentinel localhost client proof
